@@ -222,7 +222,7 @@ pub fn l2_roundtrip(dir: &std::path::Path, tag: &str, c: &L2Case, source: &[u8],
         Path2::CliHttpCli => {
             use crate::http::{Action, Script, When};
             let script = match c.http_delivery % 4 {
-                1 => Script { rules: vec![(When::Always, Action { pieces: vec![1 + c.http_k as usize % 977], pace_us: 200, ..Default::default() })], data_from: h.header_len as u64, max_requests: 0 },
+                1 => Script { rules: vec![(When::Always, Action { pieces: vec![(1 + c.http_k as usize % 977).max(source.len() / 1500)], pace_us: 200, ..Default::default() })], data_from: h.header_len as u64, max_requests: 0 },
                 2 => Script { rules: vec![(When::NthData(0), Action { cut_after: Some(c.http_k as usize), pieces: vec![5000], ..Default::default() })], data_from: h.header_len as u64, max_requests: 0 },
                 3 => Script { rules: vec![(When::NthData(0), Action { drop: true, ..Default::default() })], data_from: h.header_len as u64, max_requests: 0 },
                 _ => Script::default(),
